@@ -140,7 +140,7 @@ inductive TOp (F : Type) where
   | setProfile (prof : Nat)           -- `pdf.time_flux_profile = …`
 
 section machine
-variable [Add F] [LE F] [DecidableLE F] [OfNat F 0]
+variable [Add F] [LE F] [DecidableLE F] [LT F] [DecidableLT F] [OfNat F 0]
 
 /-- what `_calculate_sum_of_ontime_time_flux_profile_integrals` returns for the current members;
 `table p = (t_start, t_stop, get_integral)` of profile number `p`. -/
@@ -171,6 +171,72 @@ def tRunOrig (table : Nat → F × F × (F → F → F)) (s : TState F) (ops : L
 
 end machine
 
+/-! ### the whole cached state of a `SignalTimePDF`: `_S`, its fingerprint, the pre-calculated `_pd`
+
+After `fix: TimePDF keeps S and pre-calculated densities consistent …` the object remembers for which
+up-time array *object* (`ivsId`: bumped whenever the array is replaced, by the `livetime` setter or
+behind the PDF's back through `pdf.livetime.uptime_mjd_intervals_arr = …`) and for which profile
+state `_S` was calculated (`key`), recalculates at evaluation time when they differ, and drops the
+pre-calculated `_pd`.  `fixed = false` is the code before that fix (no fingerprint, `_pd` survives). -/
+
+structure TState2 (F : Type) where
+  ivs : List (F × F)
+  ivsId : Nat
+  prof : Nat
+  S : Option F
+  key : Nat × Nat
+  trial : List F
+  pd : Option (List F)
+
+inductive TOp2 (F : Type) where
+  | setLivetime (ivs : List (F × F))      -- `pdf.livetime = …`
+  | setProfile (p : Nat)                  -- `pdf.time_flux_profile = …`
+  | profileMutated (p : Nat)              -- the (shared) profile object changed from outside
+  | livetimeMutated (ivs : List (F × F))  -- `pdf.livetime.uptime_mjd_intervals_arr = …`
+  | initTrial (times : List F)            -- `initialize_for_new_trial` (constant PDF: pre-calculates)
+  | getPd                                 -- `get_pd(tdm, empty parameter row)`; state effect only
+
+section machine2
+variable [Add F] [Div F] [LE F] [DecidableLE F] [LT F] [DecidableLT F] [OfNat F 0]
+
+def upToDate (fixed : Bool) (s : TState2 F) : Bool := !fixed || (s.key == (s.ivsId, s.prof))
+
+/-- `_update_time_axis_and_S` -/
+def refresh2 (fixed : Bool) (table : Nat → F × F × (F → F → F)) (s : TState2 F) : TState2 F :=
+  { s with S := calcS table s.ivs s.prof, key := (s.ivsId, s.prof), pd := if fixed then none else s.pd }
+
+/-- `_ensure_S_is_up_to_date` -/
+def ensure2 (fixed : Bool) (table : Nat → F × F × (F → F → F)) (s : TState2 F) : TState2 F :=
+  if upToDate fixed s = true then s else refresh2 fixed table s
+
+/-- the densities `_calculate_pd` returns for the current trial in state `s` -/
+def pdOf (val : Nat → F → F) (s : TState2 F) : Option (List F) :=
+  s.S.map (fun S => s.trial.map (timePd (val s.prof) s.ivs S))
+
+def tInit2 (table : Nat → F × F × (F → F → F)) (ivs : List (F × F)) (p : Nat) : TState2 F :=
+  { ivs := ivs, ivsId := 0, prof := p, S := calcS table ivs p, key := (0, p), trial := [], pd := none }
+
+def tStep2 (fixed : Bool) (table : Nat → F × F × (F → F → F)) (val : Nat → F → F) (s : TState2 F) :
+    TOp2 F → TState2 F
+  | .setLivetime ivs => refresh2 fixed table { s with ivs := ivs, ivsId := s.ivsId + 1 }
+  | .setProfile p => refresh2 fixed table { s with prof := p }
+  | .profileMutated p => { s with prof := p }
+  | .livetimeMutated ivs => { s with ivs := ivs, ivsId := s.ivsId + 1 }
+  | .initTrial times =>
+      let s1 := ensure2 fixed table { s with trial := times }
+      { s1 with pd := pdOf val s1 }
+  | .getPd => if s.pd.isSome && upToDate fixed s then s else ensure2 fixed table s
+
+/-- what `get_pd` returns in state `s` (`none` = the window query raised) -/
+def tGet (fixed : Bool) (table : Nat → F × F × (F → F → F)) (val : Nat → F → F) (s : TState2 F) :
+    Option (List F) :=
+  if s.pd.isSome && upToDate fixed s then s.pd else pdOf val (ensure2 fixed table s)
+
+def tRun2 (fixed : Bool) (table : Nat → F × F × (F → F → F)) (val : Nat → F → F) (s : TState2 F)
+    (ops : List (TOp2 F)) : TState2 F := ops.foldl (tStep2 fixed table val) s
+
+end machine2
+
 /-! ## Part 2 — histogram PDFs -/
 
 section hist
@@ -187,9 +253,15 @@ def histBin (edges : List F) (x : F) : Option Nat :=
   let c' := if onLast then c - 1 else c
   if 1 ≤ c' ∧ c' < edges.length then some (c' - 1) else none
 
-/-- `BinningDefinition.any_data_out_of_range` for one value, negated:
-`not ((x < lower_edge) | (x > upper_edge))`. -/
-def inRange [LT F] [DecidableLT F] (edges : List F) (x : F) : Bool :=
+/-- `BinningDefinition.any_data_out_of_range` for one value, negated (after `fix: … rejects NaN`):
+`(x >= lower_edge) & (x <= upper_edge)` — false for NaN. -/
+def inRange (edges : List F) (x : F) : Bool :=
+  match edges.head?, edges.getLast? with
+  | some lo, some hi => decide (lo ≤ x) && decide (x ≤ hi)
+  | _, _ => false
+
+/-- before the fix: `not ((x < lower_edge) | (x > upper_edge))` — true for NaN -/
+def inRangeOrig [LT F] [DecidableLT F] (edges : List F) (x : F) : Bool :=
   match edges.head?, edges.getLast? with
   | some lo, some hi => !(decide (x < lo) || decide (hi < x))
   | _, _ => false
@@ -357,11 +429,18 @@ def psfPd (σ ψ : F) : F :=
   let sigmaSq := σ * σ
   0.5 / (Transc.pi * sigmaSq) * Transc.exp (-0.5 * (ψ * ψ / sigmaSq))
 
-/-- `RayleighPSFPointSourceSignalSpatialPDF`:
+/-- `RayleighPSFPointSourceSignalSpatialPDF` before the fix (NaN at `psi = 0`):
 `0.5/(np.pi*np.sin(psi)) * (psi / sigma_sq) * np.exp(-0.5*(psi**2/sigma_sq))` -/
-def rayleighPd (σ ψ : F) : F :=
+def rayleighPdOrig (σ ψ : F) : F :=
   let sigmaSq := σ * σ
   0.5 / (Transc.pi * Transc.sin ψ) * (ψ / sigmaSq) * Transc.exp (-0.5 * (ψ * ψ / sigmaSq))
+
+/-- after `fix: … finite for an event at the source position`:
+`0.5/(np.pi*sigma_sq) * psi_over_sin_psi * np.exp(-0.5*(psi**2/sigma_sq))`, `psi/sin(psi) := 1` at `psi = 0` -/
+def rayleighPd [LE F] [DecidableLE F] [OfNat F 0] [OfNat F 1] (σ ψ : F) : F :=
+  let sigmaSq := σ * σ
+  let r : F := if isZero ψ = true then 1 else ψ / Transc.sin ψ
+  0.5 / (Transc.pi * sigmaSq) * r * Transc.exp (-0.5 * (ψ * ψ / sigmaSq))
 
 end psf
 
